@@ -69,6 +69,7 @@ class CallFunction(Node):
         self.use_parenthesis: bool = True
         self.in_tell_operation: bool = False
         self.with_result = with_result
+        self.receiver: Optional[Node] = None
         
     def gv_as_sym(self) -> Optional[Node]:
         # Sometimes Macromedia Director creates symbols instead of
@@ -173,6 +174,10 @@ class CallFunction(Node):
             oplist.pop()
             oplist.reverse()
             params_str = ', '.join(oplist)
+        
+        if isinstance(self.receiver, GlobalVariable) and nm == self.name:
+            # Method call on a global object
+            nm = self.receiver.generate_js(indentation, factory_method)
         
         return self.generate_js_code(nm, params_str)
 
